@@ -587,6 +587,8 @@ class Interp:
 
     def str_of(self, x: AV) -> AV:
         """str(x) / f"{x}" """
+        if self.no_flow(x):
+            return BOTTOM
         x = self.finalize(x)
         if x.types and x.types <= NUMERIC:
             return typed("str", labels=[NUM])
@@ -610,12 +612,29 @@ class Interp:
             return AV(types=frozenset({"str"}))
         return replace(y, types=frozenset({"str"}), elem=None, key=None, tup=None, funcs=frozenset(), bound=None)
 
+    @staticmethod
+    def no_flow(x: AV) -> bool:
+        """a declared-but-not-yet-reached string value (types from an annotation only)"""
+        if x.is_bottom:
+            return True
+        if x.labels or x.consts is not None or x.funcs or x.elem is not None or x.tup is not None or x.attrs is not None:
+            return False
+        if not (x.types <= {"str", "Any", "None"}):
+            return False
+        if x.alts is not None:
+            # structure without any live alternative (every alternative has a hole nothing flows into)
+            return all(any(p.kind == "hole" and not p.labels for p in alt) for alt in x.alts)
+        return True
+
     def repr_of(self, x: AV) -> AV:
+        if self.no_flow(x):
+            return BOTTOM  # strict: nothing flows here yet (early iteration / dead code)
         x = self.finalize(x)
         if x.types and x.types <= NUMERIC:
             return typed("str", labels=[NUM])
         if any(is_esc(l) for l in x.labels):
-            return typed("str", labels=[REPR_OF_ESC, PYREPR])
+            rest = {l for l in x.labels if not is_esc(l) and l not in (CONST, NUM, ENUM, IDENT, WORD, CONFIG)}
+            return typed("str", labels=[REPR_OF_ESC] + ([PYREPR] if rest else []))
         return typed("str", labels=[PYREPR])
 
     def ev_BinOp(self, n: ast.BinOp, env: Env) -> AV:
@@ -1112,7 +1131,7 @@ class Interp:
             def f(ls: frozenset[str]) -> set[str]:
                 out = set()
                 for l in ls:
-                    if l in (RAW, UNKNOWN):
+                    if l in (RAW, UNKNOWN, RAW_NONSTR, JSONREPR, PYREPR, REPR_OF_ESC):
                         out.add(ESC + o)
                     elif is_esc(l):
                         # chained replace: backslash must have been neutralised first, or it is neutralised never
@@ -1388,7 +1407,8 @@ class Interp:
             return replace(cur, types=frozenset(want), labels=frozenset({NUM}), alts=None), cur
         if anyish:
             return replace(cur, types=frozenset(want) if not yes_t else yes_t), cur
-        yes = self.finalize(replace(cur, types=yes_t or frozenset(want)))
+        # a concrete (non-Any) type set disjoint from the tested classes: the branch is infeasible -> bottom
+        yes = self.finalize(replace(cur, types=yes_t)) if yes_t else BOTTOM
         no = self.finalize(replace(cur, types=no_t)) if no_t else cur
         if cur.tup is None and cur.elem is None:
             return yes, no
